@@ -289,6 +289,25 @@ func runC17(w *World, r *Report) {
 
 	listUpdateIterationLocal(w, r, "list-update-is-iteration-local")
 
+	// the cache keeps ONE entry per 64-bit key hash and drops the older of two keys with the same hash without comparing
+	// them: a key hash supplied by the repository has to depend on the whole key
+	r.rule("key-hash-covers-the-whole-key", "no Sum64(key string) uint64 method of the repository (a bigcache.Hasher) returns a value computed from a fixed-length part of the key (a reslice with constant bounds, or a tail key[len(key)-c:])", 0)
+	nHash := 0
+	for _, fn := range w.RepoFuncs() {
+		if fn.Name() != "Sum64" || fn.Signature.Recv() == nil || fn.Signature.Params().Len() != 1 || fn.Signature.Results().Len() != 1 {
+			continue
+		}
+		if b, ok := fn.Signature.Params().At(0).Type().Underlying().(*types.Basic); !ok || b.Kind() != types.String {
+			continue
+		}
+		nHash++
+		why := partialKeyHash(w, fn)
+		r.check(why == "", "key-hash-covers-the-whole-key", shortFn(fn), w.Pos(fn.Pos()), "the key hash depends on the whole key", why+" keys that agree on that part get the same hash, and the cache silently replaces the entry of the first by the second")
+	}
+	if nHash == 0 {
+		r.ok("key-hash-covers-the-whole-key", "none", "-", "the repository supplies no key hash: the cache uses its own (FNV-1a over the whole key)")
+	}
+
 	// the list of an address goes away only when it is empty
 	r.rule("index-key-deleted-only-when-empty", "a per-address list (a key built by encodeAddressKey) is deleted from the cache only behind the test that the list just read under that key is empty (len == 0): a shortcut that takes a short list for 'only the hash being removed' drops whatever else the list holds", 2)
 	nDel = 0
@@ -303,7 +322,21 @@ func runC17(w *World, r *Report) {
 				return
 			}
 			isAddrKey := false
+			var keyOrigins []ssa.Value
 			for _, o := range origins(a[0]) {
+				if prm, isPrm := o.(*ssa.Parameter); isPrm { // the key is handed to a helper: what the callers pass
+					for _, cs := range staticCallers(w, prm.Parent()) {
+						for k, p2 := range prm.Parent().Params {
+							if p2 == prm && k < len(cs.Common().Args) {
+								keyOrigins = append(keyOrigins, origins(cs.Common().Args[k])...)
+							}
+						}
+					}
+					continue
+				}
+				keyOrigins = append(keyOrigins, o)
+			}
+			for _, o := range keyOrigins {
 				if kc, ok := o.(*ssa.Call); ok && strings.HasSuffix(calleeName(kc), ".encodeAddressKey") {
 					isAddrKey = true
 				}
@@ -378,9 +411,35 @@ func runC17(w *World, r *Report) {
 			}
 			nLoops++
 			skipped := 0
+			// a helper that writes the list on every way to its return that is not a cache failure counts as the write
+			helperWrites := func(h *ssa.Function) bool {
+				var hcut []Edge
+				instrsOf(h, func(in ssa.Instruction) {
+					if c, ok := in.(ssa.CallInstruction); ok && memCall(c) != "" {
+						hcut = append(hcut, failErrNonNil(c)...)
+					}
+				})
+				bare := 0
+				walkFrom(nil, h.Blocks[0], edgeSet(hcut), func(x ssa.Instruction) bool {
+					if c, ok := x.(ssa.CallInstruction); ok && memCall(c) == "Set" {
+						return true
+					}
+					if _, isRet := x.(*ssa.Return); isRet {
+						bare++
+						return true
+					}
+					return false
+				})
+				return bare == 0
+			}
 			walkFrom(nil, hdr.Succs[0], edgeSet(cut), func(x ssa.Instruction) bool {
 				if c, ok := x.(ssa.CallInstruction); ok && memCall(c) == "Set" {
 					return true
+				}
+				if c, ok := x.(ssa.CallInstruction); ok {
+					if h := samePkgHelper(sv, c); h != nil && helperWrites(h) {
+						return true
+					}
 				}
 				if x.Block() == hdr {
 					skipped++
@@ -690,4 +749,85 @@ func listUpdateIterationLocal(w *World, r *Report, rule string) {
 		r.ok(rule, "none", "-", "no list is written inside a loop")
 	}
 
+}
+
+// partialKeyHash: does a return value of the key hash fn depend on the key only through a reslice with constant bounds
+// (a fixed-length part of the key)? Keys that agree on that part collide whatever else they contain; bigcache drops the
+// older entry of two keys with the same 64-bit hash without comparing the keys.
+func partialKeyHash(w *World, fn *ssa.Function) string {
+	if len(fn.Params) == 0 {
+		return ""
+	}
+	key := fn.Params[len(fn.Params)-1]
+	out := ""
+	for _, ret := range returnsOf(fn) {
+		if len(ret.Results) == 0 {
+			continue
+		}
+		whole, partial := false, ""
+		seen := map[ssa.Value]bool{}
+		var walk func(v ssa.Value, cut string, d int)
+		walk = func(v ssa.Value, cut string, d int) {
+			if v == nil || d > 14 || seen[v] && cut == "" {
+				return
+			}
+			seen[v] = true
+			switch x := v.(type) {
+			case *ssa.Parameter:
+				if x == key {
+					if cut == "" {
+						whole = true
+					} else if partial == "" {
+						partial = cut
+					}
+				}
+			case *ssa.Slice:
+				c2 := cut
+				_, loK := intConst(x.Low)
+				_, hiK := intConst(x.High)
+				lowRel := false
+				if x.Low != nil {
+					if b := boundOf(x.Low); b.ok && b.isLen && b.c < 0 {
+						lowRel = true // x[len(x)-c:]: a fixed-length tail
+					}
+				}
+				if x.High != nil && hiK || x.Low != nil && loK && x.High != nil || lowRel {
+					c2 = "the reslice at " + lineOf(w, x)
+				}
+				walk(x.X, c2, d+1)
+			case *ssa.Call:
+				for _, a := range x.Call.Args {
+					walk(a, cut, d+1)
+				}
+			case *ssa.Extract:
+				walk(x.Tuple, cut, d+1)
+			case *ssa.BinOp:
+				walk(x.X, cut, d+1)
+				walk(x.Y, cut, d+1)
+			case *ssa.UnOp:
+				walk(x.X, cut, d+1)
+			case *ssa.Convert:
+				walk(x.X, cut, d+1)
+			case *ssa.ChangeType:
+				walk(x.X, cut, d+1)
+			case *ssa.Phi:
+				for _, e := range x.Edges {
+					walk(e, cut, d+1)
+				}
+			case *ssa.Lookup:
+				walk(x.X, cut, d+1)
+				walk(x.Index, cut, d+1)
+			case *ssa.Index:
+				walk(x.X, cut, d+1)
+			case *ssa.IndexAddr:
+				walk(x.X, cut, d+1)
+			}
+		}
+		walk(ret.Results[0], "", 0)
+		_ = whole
+		if partial != "" {
+			out += fmt.Sprintf(" the value returned at %s depends on the key through %s (a fixed-length part of it);", lineOf(w, ret), partial)
+		}
+	}
+	return out
 }
